@@ -32,6 +32,7 @@ type SampleRow struct {
 	Line  string
 	Val   float64
 	Type  uint8
+	TTL   uint16
 	Resp  int // index of the response that carried it
 	Index int
 }
@@ -42,6 +43,7 @@ type SeriesRow struct {
 	Date   time.Time
 	Labels string
 	Type   uint8
+	TTL    uint16
 	Resp   int
 }
 
@@ -130,6 +132,13 @@ func Context(p gen.Proto, b gen.Body) context.Context {
 	return ctx
 }
 
+// ContextTTL is Context plus the values withRequestContext puts into every request context
+// (controller/middleware.go:197-200): META and TTL_DAYS (uint16, 0 when the header is absent).
+func ContextTTL(p gen.Proto, b gen.Body, ttlDays uint16) context.Context {
+	ctx := context.WithValue(Context(p, b), "META", "")
+	return context.WithValue(ctx, "TTL_DAYS", ttlDays)
+}
+
 // Run feeds body to the parser and collects every response.
 func Run(parser unmarshal.ParsingFunction, ctx context.Context, body []byte, cache numbercache.ICache[uint64]) *Parsed {
 	out := &Parsed{}
@@ -157,7 +166,7 @@ func Run(parser unmarshal.ParsingFunction, ctx context.Context, body []byte, cac
 				out.WithRows++
 			}
 			for i := 0; i < n; i++ {
-				out.Samples = append(out.Samples, SampleRow{FP: s.MFingerprint[i], Ts: s.MTimestampNS[i], Line: s.MMessage[i], Val: s.MValue[i], Type: s.MType[i], Resp: ri, Index: i})
+				out.Samples = append(out.Samples, SampleRow{FP: s.MFingerprint[i], Ts: s.MTimestampNS[i], Line: s.MMessage[i], Val: s.MValue[i], Type: s.MType[i], TTL: s.MTTLDays[i], Resp: ri, Index: i})
 			}
 		}
 		if r.TimeSeriesRequest != nil {
@@ -171,7 +180,7 @@ func Run(parser unmarshal.ParsingFunction, ctx context.Context, body []byte, cac
 				continue
 			}
 			for i := 0; i < n; i++ {
-				out.Series = append(out.Series, SeriesRow{FP: t.MFingerprint[i], Date: t.MDate[i], Labels: t.MLabels[i], Type: t.MType[i], Resp: ri})
+				out.Series = append(out.Series, SeriesRow{FP: t.MFingerprint[i], Date: t.MDate[i], Labels: t.MLabels[i], Type: t.MType[i], TTL: t.MTTLDays[i], Resp: ri})
 			}
 		}
 	}
@@ -181,4 +190,9 @@ func Run(parser unmarshal.ParsingFunction, ctx context.Context, body []byte, cac
 // ParseBody encodes and parses a logical body with a fresh cache.
 func ParseBody(p gen.Proto, b gen.Body, distributed bool) *Parsed {
 	return Run(ParserOf(p), Context(p, b), gen.Encode(p, b), FreshCache(distributed))
+}
+
+// ParseBodyTTL is ParseBody with a TTL supplied by the request context (0 = none).
+func ParseBodyTTL(p gen.Proto, b gen.Body, distributed bool, ttlDays uint16) *Parsed {
+	return Run(ParserOf(p), ContextTTL(p, b, ttlDays), gen.Encode(p, b), FreshCache(distributed))
 }
